@@ -517,6 +517,36 @@ KNOWN_SIGS = [
     {"kind": "handover-race", "effect": "full-buffer-shift"},
 ]
 
+
+def run_reentrant(sc):
+    """a destination removed *from inside a delivery* (another destination calls remove while it is being offered a message) receives
+    nothing further -- not even the message being delivered (found missing by seeded change C12-4). Only removal of a destination that is
+    later in the list is probed: a destination removing itself / an earlier one shifts the live list, which is outside the statement."""
+    D = Destinations()
+    got_d, events = [], []
+    def d(m): got_d.append((tick(), m.get("n")))
+    removed_at = []
+    def a(m):
+        if m.get("n") == sc["remove_on"] and not removed_at:
+            D.remove(d); removed_at.append(tick())
+    for i in range(sc["buffered"]): D.send({"n": "b%d" % i})
+    D.add(a, d)
+    for i in range(sc["later"]): D.send({"n": "m%d" % i})
+    out = []
+    if not removed_at:
+        return out
+    late = [n for (t, n) in got_d if t > removed_at[0]]
+    if late:
+        out.append(({"clause": "removed-destination-receives-nothing-further", "family": "reentrant"},
+                    "destination removed during the delivery of %r still received %r" % (sc["remove_on"], late)))
+    return out
+
+def gen_reentrant():
+    yield {"family": "reentrant", "buffered": 0, "later": 3, "remove_on": "m0"}
+    yield {"family": "reentrant", "buffered": 0, "later": 3, "remove_on": "m1"}
+    yield {"family": "reentrant", "buffered": 2, "later": 2, "remove_on": "b0"}
+    yield {"family": "reentrant", "buffered": 3, "later": 1, "remove_on": "b2"}
+
 def main():
     fails = []; known = []; known_count = {}; cases = 0; seen = set(); fail_sigs = set()
     truncated = False
@@ -535,8 +565,12 @@ def main():
         if args.scenario:
             sc = json.loads(args.scenario); cases = 1; seen.add(json.dumps(sc, sort_keys=True))
             if sc.get("family") == "seq": handle(sc, run_seq(sc))
+            elif sc.get("family") == "reentrant": handle(sc, run_reentrant(sc))
             else: handle(sc, run_conc(sc)[0])
         else:
+            for sc in gen_reentrant():
+                cases += 1; seen.add(json.dumps(sc, sort_keys=True))
+                handle(sc, run_reentrant(sc))
             seq_budget = T0 + (14 if args.tier == "quick" else 400)
             for sc in gen_seq(args.tier, args.seed):
                 if time.time() > seq_budget: truncated = True; break
@@ -557,7 +591,7 @@ def main():
     print("c12: known occurrences %r; %.1fs" % (known_count, time.time() - T0), file=sys.stderr)
     print(json.dumps({
         "cases": cases, "distinct": len(seen), "failures": fails[:5], "known": known,
-        "bound": ("sequential: every history of length <= %d over 9 operations (log, log with a field colliding with a global field, add 1 dest, add 2 dests, add 0 dests, remove dest 0/1, set global g/h), fixed histories with 998..1003/2000/2001 buffered messages, %d seeded random histories of length 5..14 (bulk logs up to 2005, to_file, up to 4 destinations), each on the global instance via the public API or a fresh Destinations; "
+        "bound": ("re-entrant: 4 histories in which one destination removes a later one during a delivery / during the replay of the start-up buffer; sequential: every history of length <= %d over 9 operations (log, log with a field colliding with a global field, add 1 dest, add 2 dests, add 0 dests, remove dest 0/1, set global g/h), fixed histories with 998..1003/2000/2001 buffered messages, %d seeded random histories of length 5..14 (bulk logs up to 2005, to_file, up to 4 destinations), each on the global instance via the public API or a fresh Destinations; "
                   "concurrent: 0..%d buffered messages x 1..2 destinations x 1..2 messages by the logging thread, all line-granular 2-switch schedules (sampled above a cap) plus seeded 4-switch schedules, and sampled schedules with 1000/1001 buffered messages")
                  % ((5, 250, 2) if args.tier == "quick" else (6, 6000, 3)),
         "rule": "seq scenario = (api, operation list); non-trivial/distinct = distinct list containing at least one log and one add/to_file. conc scenario = (k buffered, destinations, messages during, plan of [thread, line steps]); distinct = distinct executed thread-step trace per configuration in which at least one thread was preempted in the middle of its call (pure run-one-then-the-other traces are trivial)",
